@@ -113,6 +113,13 @@ type World struct {
 	// Milestone counts actor-visible events (call issued / answered, invocation issued / answered): harness
 	// threads that must act "at any point of an invocation" wait for a chosen milestone.
 	Milestone int
+	// Phase is a label set by the scenario (e.g. "prefix" / "suffix"); a process remembers the phase it
+	// was started in and its ordinal among the launches of its program in that phase.
+	Phase     string
+	phaseGens map[string]int
+	rapidCtx  interop.RapidContext
+	// Releases[i] is the runtime identity string stored by the platform when invocation i was answered
+	Releases []string
 }
 
 const BootstrapPath = "/var/task/bootstrap"
@@ -216,7 +223,8 @@ func NewWorld(cfg *Config) *World {
 	b.DefaultInteropServer().SetSandboxContext(sbCtx)
 	b.DefaultInteropServer().SetInternalStateGetter(stateFn)
 	w.Builder = b
-	w.Handler = rapid.VerifServer(rapidcore.VerifRapidCtx(sbCtx)).VerifHandler()
+	w.rapidCtx = rapidcore.VerifRapidCtx(sbCtx)
+	w.Handler = rapid.VerifServer(w.rapidCtx).VerifHandler()
 	w.Bootstrap = ehook.NewSimpleBootstrap([]string{BootstrapPath}, "/")
 
 	onTerm := func(policy string) func(p *vexec.Proc) {
@@ -251,18 +259,24 @@ func WorldOf(e *sched.Exec) *World {
 
 // Actor is a scripted process (or an internal extension thread inside the runtime process).
 type Actor struct {
-	W     *World
-	P     *vexec.Proc
-	Name  string // "runtime", "ext:<name>", "int:<name>"
-	Gen   int
-	ExtID string // Lambda-Extension-Identifier after a successful register
-	Env   map[string]string
+	W        *World
+	P        *vexec.Proc
+	Name     string // "runtime", "ext:<name>", "int:<name>"
+	Gen      int
+	ExtID    string // Lambda-Extension-Identifier after a successful register
+	Env      map[string]string
+	Phase    string // World.Phase at launch
+	PhaseGen int    // 1-based ordinal of this launch among the launches of the program in that phase
 }
 
 func (w *World) procMain(name string, body func(a *Actor)) func(p *vexec.Proc) {
 	return func(p *vexec.Proc) {
 		w.gens[name]++
-		a := &Actor{W: w, P: p, Name: name, Gen: w.gens[name], Env: map[string]string{}}
+		if w.phaseGens == nil {
+			w.phaseGens = map[string]int{}
+		}
+		w.phaseGens[w.Phase+"/"+name]++
+		a := &Actor{W: w, P: p, Name: name, Gen: w.gens[name], Env: map[string]string{}, Phase: w.Phase, PhaseGen: w.phaseGens[w.Phase+"/"+name]}
 		for _, kv := range p.Env {
 			if i := strings.IndexByte(kv, '='); i >= 0 {
 				a.Env[kv[:i]] = kv[i+1:]
@@ -364,7 +378,11 @@ const (
 )
 
 func (a *Actor) Next() *Call {
-	c := a.do("next", "GET", rtBase+"/invocation/next", map[string]string{"User-Agent": "verif-runtime/1.0"}, nil)
+	ua := "verif-runtime/1.0"
+	if a.Phase != "" {
+		ua += "-" + a.Phase
+	}
+	c := a.do("next", "GET", rtBase+"/invocation/next", map[string]string{"User-Agent": ua}, nil)
 	c.ReqID = c.Header.Get("Lambda-Runtime-Aws-Request-Id")
 	return c
 }
@@ -482,6 +500,7 @@ func (w *World) Invoke(payload []byte, hdr map[string]string) *Invoke {
 	inv.AnsNs = sched.NowNs()
 	inv.Status = rec.Code
 	inv.Body = rec.Body.Bytes()
+	w.Releases = append(w.Releases, rapid.VerifRuntimeRelease(w.rapidCtx))
 	w.Milestone++
 	sched.Record(fmt.Sprintf("invoke-answer:%d:%d", inv.Idx, inv.Status))
 	return inv
@@ -658,4 +677,100 @@ func firstLines(s string, n int) string {
 		l = l[:n]
 	}
 	return strings.Join(l, "\n")
+}
+
+var deadlineRe = regexp.MustCompile(`"deadlineMs":\d+`)
+
+// Marks remembers positions in the observation logs (start of a suffix).
+type Marks struct{ Calls, Invokes, Events, Kernel int }
+
+func (w *World) Mark() Marks {
+	return Marks{len(w.Calls), len(w.Invokes), len(w.Events), len(w.K.Log)}
+}
+
+// ActorTrace renders what callers, runtimes and extensions observed from m on, per actor (schedule
+// independent), with request ids, extension ids and absolute deadlines normalised.
+func (w *World) ActorTrace(m Marks) string {
+	var sb strings.Builder
+	for _, i := range w.Invokes[m.Invokes:] {
+		fmt.Fprintf(&sb, "invoke %d -> %d %q\n", i.Idx-m.Invokes, i.Status, trunc(i.Body, 400))
+	}
+	// processes started from the mark on
+	pids := map[int]int{}
+	for _, k := range w.K.Log[m.Kernel:] {
+		if k.Kind == "exec" {
+			pids[k.Pid] = len(pids) + 1
+		}
+	}
+	per := map[string][]string{}
+	var order []string
+	for _, c := range w.Calls[m.Calls:] {
+		if pids[c.Pid] == 0 {
+			continue // a call of a process of the earlier environment
+		}
+		key := fmt.Sprintf("%s/p%d", c.Actor, pids[c.Pid])
+		if _, ok := per[key]; !ok {
+			order = append(order, key)
+		}
+		line := fmt.Sprintf("  %s %s", c.Kind, c.Path)
+		if c.Answered >= 0 {
+			h := ""
+			for _, k := range []string{"Lambda-Runtime-Invoked-Function-Arn", "Lambda-Runtime-Client-Context", "Content-Type"} {
+				if v := c.Header.Get(k); v != "" {
+					h += " " + k + "=" + v
+				}
+			}
+			if dl := c.Header.Get("Lambda-Runtime-Deadline-Ms"); dl != "" {
+				h += " deadline=set"
+			}
+			line += fmt.Sprintf(" -> %d%s %q aborted=%v", c.Status, h, deadlineRe.ReplaceAllString(trunc(c.Body, 300), `"deadlineMs":D`), c.Aborted)
+		} else {
+			line += " -> (never answered)"
+		}
+		per[key] = append(per[key], line)
+	}
+	sort.Strings(order)
+	for _, k := range order {
+		sb.WriteString(k + "\n" + strings.Join(per[k], "\n") + "\n")
+	}
+	return NormUUIDs(sb.String())
+}
+
+// PlatformTrace renders supervisor requests and lifecycle events from m on (pids as ordinals).
+func (w *World) PlatformTrace(m Marks) string {
+	var sb strings.Builder
+	pids := map[int]int{}
+	per := map[int][]string{}
+	for _, k := range w.K.Log[m.Kernel:] {
+		if k.Kind == "exec" {
+			pids[k.Pid] = len(pids) + 1
+			env := append([]string{}, k.Env...)
+			sort.Strings(env)
+			per[k.Pid] = append(per[k.Pid], fmt.Sprintf("exec %s args=%v dir=%s env=%v", k.Path, k.Args, k.Dir, env))
+		}
+	}
+	for _, k := range w.K.Log[m.Kernel:] {
+		if pids[k.Pid] == 0 || k.Kind == "exec" {
+			continue
+		}
+		per[k.Pid] = append(per[k.Pid], fmt.Sprintf("%s sig=%d group=%v code=%d", k.Kind, k.Sig, k.Group, k.Code))
+	}
+	var ps []int
+	for p := range per {
+		ps = append(ps, p)
+	}
+	sort.Slice(ps, func(i, j int) bool { return pids[ps[i]] < pids[ps[j]] })
+	for _, p := range ps {
+		fmt.Fprintf(&sb, "proc %d\n  %s\n", pids[p], strings.Join(per[p], "\n  "))
+	}
+	for i := m.Invokes; i < len(w.Releases); i++ {
+		fmt.Fprintf(&sb, "runtime release after invoke %d: %q\n", i-m.Invokes, w.Releases[i])
+	}
+	for _, e := range w.Events[m.Events:] {
+		b, _ := json.Marshal(e.Data)
+		s := string(b)
+		s = regexp.MustCompile(`"durationMs":[0-9.]+`).ReplaceAllString(s, `"durationMs":X`)
+		fmt.Fprintf(&sb, "event %s %s\n", e.Kind, s)
+	}
+	return NormUUIDs(sb.String())
 }
